@@ -1015,3 +1015,36 @@ def inline_self_calls(ix, cls, fn, depth=0, _seen=()):
     fn.body = expand(fn.body)
     ast.fix_missing_locations(fn)
     return fn
+
+def sib_with_helpers(ctx, rid):
+    """pC02.rule_sib (shape comparison of the declared copies of DivInt / ModInt with the originals) combined with C03-HELPERS (value-wise decision of every
+    original and every copy): a shape difference or a give-up of the shape comparison is a finding only where the value-wise decision did not succeed."""
+    import re
+    from . import pC02 as P
+    from ..core import Rule, AnalysisError
+    rh2 = rule_helpers(ctx)
+    try:
+        rsib = P.rule_sib(ctx, rid)
+    except AnalysisError as e:
+        # SIB (a shape comparison of the declared copies with CMath.c) cannot read one of the blocks.  The obligation it stands for - copy and original
+        # compute the same // resp. % - is decided value-wise by C03-HELPERS for every original and every copy; only if that succeeded for all of them
+        # is the give-up downgraded to an info line.
+        originals = {k for k in rh2.ok_sites if k[0] == 'CMath.c'}
+        copies = {k for k in rh2.ok_sites if k[0] != 'CMath.c'}
+        if rh2.findings or len(originals) < 3 or len(copies) < 4:
+            raise
+        rsib = Rule(rid, 'SIB1: declared copies of DivInt / ModInt in PyLongBinop equal the original (shape comparison)', floor=0)
+        for k in sorted(copies):
+            rsib.inst('PyLongBinop(%s):%s:%s' % k, sample='covered by C03-HELPERS: PyLongBinop(%s):%s:%s' % k)
+        rsib.info('shape comparison not possible (%s); every original and every declared copy was verified value-wise by C03-HELPERS instead' % str(e)[:160])
+    # SIB compares the *shape* of a declared copy with its original.  When C03-HELPERS has shown that the original AND the copy both compute
+    # Python's // resp. % on the whole model grid, a difference in shape is a behaviour-preserving rewrite of one side: reported as info only.
+    keep = []
+    for f in rsib.findings:
+        m = re.match(r'PyLongBinop\((\w+)\):(\w+):(\w+)$', f.construct)
+        if m and (m.group(1), m.group(2), m.group(3)) in rh2.ok_sites and ('CMath.c', m.group(2)) in rh2.ok_sites:
+            rsib.info('shape difference only (both sides verified by C03-HELPERS): %s' % f.msg[:200])
+        else:
+            keep.append(f)
+    rsib.findings = keep
+    return rsib, rh2
